@@ -30,14 +30,30 @@ RULE = ("case = (BUF, input bytes, delivery schedule, script). Inputs from the t
         "2..5 readers, the temporary-reader shape (readers created, used and dropped between two calls of a main reader; also readers "
         "that are only created and dropped, readers over a line of the main input, readers over the same bytes), two inputs longer than BUF; "
         "lifecycle steps new (up front or lazy) / drop (at once, at the end, never) / mv (the value is moved in memory); the harness also replays "
-        "the calls of every reader on a fresh Reader used alone (`!alone<k>`). A second, reduced run of all streams uses the debug build "
-        "(debug_assert! on). non-trivial = distinct case with a non-empty in-domain prefix whose schedule splits the input into at "
+        "the calls of every reader on a fresh Reader used alone (`!alone<k>`). Stream 8 (wave 4): degenerate arguments of every entry point - "
+        "read_vec(0) of every element shape (atoms and tuples), read_vec(1), one-row vectors of tuples, tuples, is_eof or read_vec(0) between every "
+        "two calls - directly followed by read_line / read_lines, so that whitespace a call swallowed without being entitled to shows in the next "
+        "result: all inputs <= 3 bytes (thorough 4) over {1,-,space,LF,CR,a} x fixed shapes (all at once, byte by byte), and oracle-simulated random "
+        "scripts over line-oriented / grammar / special / `count line + values + text` inputs. Stream 9 (wave 4): long runs of 10..45 thousand bytes "
+        "(thorough: up to 4*BUF) - one line (also with bare CRs), one token, blanks before a token, empty LF / CR LF lines, a zero-padded integer, very "
+        "many one-digit tokens read by one read_vec, very many one-byte lines - delivered one / two / seven / 1..3 bytes per read (with and without "
+        "Interrupted) and all at once; these cases carry the header flag `ss`: the harness answers each in a child process on a thread whose stack is "
+        "256 KiB + 4 * size_of::<Reader>(), and the death of the child is the view `STACK!...` (recursion per refill / per byte / per element is a "
+        "violation with that input). A second, reduced run of all streams - streams 8 and 9 included - uses the debug build "
+        "(debug_assert! on, no tail-call optimisation). non-trivial = distinct case with a non-empty in-domain prefix whose schedule splits the input into at "
         "least two reads or contains an Interrupted event; for a multi-reader case: some reader is used again after another reader made a call")
 ASSUMPTIONS = [
     "the Lean model of rlib_io::Reader is hand-written; it is tied to the code by running both on the same (input, schedule, script) cases",
     "the source obeys the std::io::Read contract: it never reports more bytes than it wrote, and after returning 0 it has no more data",
     "harness built in the release profile with overflow-checks=true (debug_assert! of reader.rs is off, as in a contest build); a second, reduced run uses the debug build (debug_assert! on): the model has no debug_assert!, which is sound because every compared result lies inside the property's domain, where none of them can fire; outside it (twin lines) differences are only counted",
     "several live readers (stream 7): the model keeps one independent RState per reader (runMulti), so independence of readers holds in the model by construction and is stated as theorems (readers_independent, spec_reader_independent); that the REAL readers do not share state is what the differential run tests - on one thread only (readers on different threads are not exercised); Reader::new, drop and a move of the value are no-ops of the model; `!alone<k>` is an independent replay inside the harness (a fresh Reader used alone), not a model",
+    "small-stack cases (stream 9, header flag `ss`): that the reader needs only a bounded amount of stack is not part of the Lean model (its functions are total, "
+    "structurally recursive definitions; stack depth is not modelled); it is tested: the harness re-runs the case in a child process on a thread with "
+    "256 KiB + 4 * size_of::<Reader>() of stack and reports the child's death as the view `STACK!...`, which never equals the specification's answer. The bound is generous "
+    "for every loop-based implementation (the Reader value with its inline buffer may legitimately be built and moved on the stack) and far below what per-refill / per-byte "
+    "recursion over >= 10,000 reads needs in the debug build",
+    "read_vec(0) consumes nothing: a theorem of model and specification (read_vec_zero_consumes_nothing, read_vec_zero_anywhere, spec_read_vec_zero_anywhere); for the code it is "
+    "what stream 8 tests in both build profiles (a debug_assert! with a side effect exists only in the debug build)",
     "the buffer size is read from rlib/io/src/reader.rs when an anchor matches, otherwise learned from the running code (slice offered to the first read); it only aims the boundary streams and parametrises the model: the theorems hold for every BUF >= 1 and the spec does not depend on it",
 ]
 TRUSTED_EXTRA = ["std::io::Read contract of the source handed to Reader::new", "Box<dyn Read>, String::push, Vec::push of std"]
@@ -51,7 +67,9 @@ MANIFEST = {
              "decimal parsing returns the value for every integer of every width incl. MIN. Several readers: a script interleaving calls on "
              "several readers (each in its own reachable state) yields the interleaving of the per-reader specification traces "
              "(multi_refines, multi_schedule_independent), and what reader k returns equals what the same calls return on a reader used "
-             "alone over the same bytes under any other delivery (readers_independent). The model is tied to rlib_io by a "
+             "alone over the same bytes under any other delivery (readers_independent). A read_vec(0) inserted anywhere in a script "
+             "changes nothing but its own empty result, in the model from every state and in the specification "
+             "(read_vec_zero_anywhere, spec_read_vec_zero_anywhere). The model is tied to rlib_io by a "
              "differential correspondence run (schedule-driven Read source; one or several live Readers on a thread) on every check."),
     "note": ("Trusted: Lean kernel, axioms propext/Classical.choice/Quot.sound, the hand-written model (checked against the code on generated "
              "cases only: exhaustive chunkings x single interrupts for inputs <= 6 bytes, boundary-targeted and random schedules), the Read "
